@@ -18,6 +18,8 @@ def run(ctx):
     ctx.rule("R14.x", "context-manager model: _batch_call_watchers, batch_call_watchers, discard_events, _syncing and edit_constant interpreted abstractly with the body of the `with` supplied at the `yield` (62 cases: entry state x body ends normally / raises x nesting x queues replaced in the body x Parameter copies made in the body): flag, queues, syncing set and constant flags are, after the block, what they were before; the flush runs iff outermost, after the restore, also when the body raised", floor=1)
     ctx.rule("R14.n", "the per-instance Parameter table is one dict for the life of the instance: after construction `<instance>._param__private.params` is only mutated in place, never rebound -- edit_constant (and the descriptor wrapper) hold on to that dict across their work, so Parameter copies put into a replacement dict are never re-locked", floor=3)
     ctx.rule("R14.o", "Parameterized.__getstate__, interpreted abstractly, saves every ordinary attribute and the complete per-instance value store -- entries that are still the class default object included (that entry pins a constant to the instance; a copy without it follows later class-level sets)", floor=1)
+    ctx.rule("R14.v", "instance or class is decided by identity: no boolean-context use (if / and / or / not / conditional expression) of the namespace's instance (`self_.self` or a local alias) in "
+                      "class Parameters, nor of `obj` in the descriptor methods of Parameter types -- an instance of a class defining __len__ / __bool__ may be falsy and is still an instance", floor=40)
     ctx.rule("R14.a", "in Parameter.__set__ every value store is control-dependent on the constant/readonly test; no store lies on a path where "
                       "self.readonly holds, nor where the parameter is constant and the instance is initialized; on that arm the only "
                       "non-raising continuation is the identity case", floor=5)
@@ -317,3 +319,5 @@ def run(ctx):
     cm_model.report(ctx, "C14", "R14.x")
     from checks import ctor_model
     ctor_model.report(ctx, "C14", "R14.k")
+    from checks.shared import instance_tested_by_identity
+    instance_tested_by_identity(ctx, "R14.v")
